@@ -838,7 +838,7 @@ def run(ctx, res):
 def replay(case):
     k = case["kind"]
     if k == "history":
-        base = pristine()
+        base = in_fork(pristine)       # the baseline must not warm this process
         why = run_history(case["input"], base)
         return bool(why), why or "probe unchanged"
     if k == "schedule":
